@@ -254,7 +254,16 @@ impl ast::FilePath {
 
     // FIXME: there is a better idiomatic way
     pub fn to_string(&self) -> Option<String> {
-        Some(self.string()?.value()?.to_string())
+        if let Some(value) = self.string().as_ref().and_then(|s| s.value()) {
+            return Some(value.to_string());
+        }
+        // The token is not a string with valid escapes (e.g. `"a\qb"`, `"0101"`).
+        // Then the path is the text as written between the quotes.
+        let token = self.token();
+        let text = token.text();
+        let inner = text.strip_prefix(['"', '\'']).unwrap_or(text);
+        let inner = inner.strip_suffix(['"', '\'']).unwrap_or(inner);
+        Some(inner.to_string())
     }
 }
 
